@@ -126,7 +126,7 @@ Proof.
   - rewrite Forall_forall. intros m Hm. apply in_map_iff in Hm. destruct Hm as (c & <- & _). exact H.
 Qed.
 
-Lemma fee_msgs_recipients me f : Forall (recipient_ok me) (fee_msgs me f).
+Lemma fee_msgs_recipients me dp f : Forall (recipient_ok me) (fee_msgs dp f).
 Proof. destruct f; simpl; repeat constructor. Qed.
 
 Lemma pay_royalties_forall (P : out_msg -> Prop) mk orig rs :
@@ -162,12 +162,12 @@ Qed.
 Definition oracle_clean (o : oracle) (me : addr) : Prop :=
   forall reg cs resp r, registry_multi o reg cs = Ok resp -> In r (registered resp) -> payout r <> me.
 
-Theorem execute_recipients o e sender fs m s s' out :
-  execute o e sender fs m s = Ok (s', out) -> sender <> self e -> oracle_clean o (self e) ->
-  Forall (recipient_ok (self e)) out.
+Theorem execute_recipients me o e sender fs m s s' out :
+  execute o e sender fs m s = Ok (s', out) -> sender <> me -> oracle_clean o me ->
+  Forall (recipient_ok me) out.
 Proof.
   intros H Hs Ho. unfold execute in H. step H; [discriminate|]. clear Hc.
-  assert (Hnil : forall (r : response), r = (s', out) -> snd r = [] -> Forall (recipient_ok (self e)) out)
+  assert (Hnil : forall (r : response), r = (s', out) -> snd r = [] -> Forall (recipient_ok me) out)
     by (intros r -> E; simpl in E; rewrite E; constructor).
   destruct m.
   - step H; [|discriminate]. apply cycle_fee_effect in H. destruct H as [_ ->]. constructor.
@@ -196,7 +196,7 @@ Proof.
   - step H; [|discriminate]. apply buy_inv in H.
     destruct H as (bk & kl & l0 & l_fee & l_bal & b_fee & b_bal & reg & m1 & final_b & m2 & final_l &
                    _ & _ & _ & _ & _ & _ & _ & _ & _ & _ & _ & Hr1 & Hr2 & _ & _ & ->).
-    assert (Hside : forall colls g ms g', side_royalties o reg colls g = Ok (ms, g') -> Forall (recipient_ok (self e)) ms).
+    assert (Hside : forall colls g ms g', side_royalties o reg colls g = Ok (ms, g') -> Forall (recipient_ok me) ms).
     { intros colls g ms g' Hh. unfold side_royalties in Hh. destruct colls; [inv Hh; constructor|].
       step Hh. step Hh. destruct x0 as [[ms' t] g2]. inv Hh. eapply royalties_recipients; [exact Hb0|].
       intros r Hr. eapply Ho; eassumption. }
@@ -333,7 +333,7 @@ Lemma run_market_backed w1 sender fs m fail w' out :
 Proof.
   intros I Hc Hp Hs Hheld H x Hx. apply run_market_inv in H. destruct H as (s' & He & Hd & Hm).
   apply dispatch_fail_none in Hd.
-  pose proof (execute_recipients _ _ _ _ _ _ _ _ He Hs (oracle_of_clean _ Hc)) as Hr.
+  pose proof (execute_recipients (self_addr w1) _ _ _ _ _ _ _ _ He Hs (oracle_of_clean _ Hc)) as Hr.
   pose proof (accounting x _ _ _ _ _ _ _ _ I He) as Ha.
   pose proof (dispatch_held _ _ _ _ x Hd Hr Hp) as Hh. simpl in Hh.
   assert (Hx' : honest_asset (set_market w1 s') x) by (destruct x; exact Hx).
